@@ -767,8 +767,13 @@ def explain_description(
     txn_date: Optional[date] = None,
     transforms: Optional[List[Tuple[str, str]]] = None,
     field: Optional[Dict[str, str]] = None,
+    data_sources: Optional[Dict[str, List[Dict]]] = None,
 ) -> dict:
     """Trace how a description is processed and matched.
+
+    The classification itself is done by normalize_merchant(), i.e. by exactly the code
+    'tally up' uses (rule mode, variables, let/field directives, tag-only rules and
+    supplemental data sources included), so the explanation cannot disagree with it.
 
     Returns a dict with detailed information about the matching process:
     - original: The original description
@@ -779,10 +784,9 @@ def explain_description(
     - subcategory: Resulting subcategory
     - is_unknown: Whether this is an unknown merchant
     """
-    from tally import expr_parser
-
-    # Apply field transforms
-    transaction = {'description': description, 'amount': amount or 0, 'field': field}
+    # Apply field transforms (only to report the transformed description)
+    transaction = {'description': description, 'amount': amount or 0,
+                   'field': dict(field) if field else field}
     if txn_date:
         transaction['date'] = txn_date
     if transforms:
@@ -799,60 +803,27 @@ def explain_description(
         'is_unknown': False,
     }
 
-    # Try pattern matching against transformed description
-    desc_upper = transformed_desc.upper()
+    merchant, category, subcategory, match_info = normalize_merchant(
+        description, rules, amount=amount, txn_date=txn_date, field=field,
+        transforms=transforms, data_sources=data_sources,
+    )
 
-    for rule in rules:
-        # Handle various formats
-        tags = []
-        if len(rule) == 7:
-            pattern, merchant, category, subcategory, parsed, source, tags = rule
-        elif len(rule) == 6:
-            pattern, merchant, category, subcategory, parsed, source = rule
-        elif len(rule) == 5:
-            pattern, merchant, category, subcategory, parsed = rule
-            source = 'unknown'
-        else:
-            pattern, merchant, category, subcategory = rule
-            parsed = None
-            source = 'unknown'
+    if match_info and match_info.get('pattern'):
+        # A categorization rule decided the result
+        result['matched_rule'] = {
+            'pattern': match_info['pattern'],
+            'source': match_info.get('source', 'unknown'),
+            'matched_on': 'transformed' if transformed_desc != description else 'original',
+            'tags': match_info.get('tags', []),
+        }
+        result['merchant'] = merchant
+        result['category'] = category
+        result['subcategory'] = subcategory
+        return result
 
-        try:
-            # Determine if this is an expression pattern or a regex pattern
-            if _is_expression_pattern(pattern):
-                # Use expression parser for expression-based rules
-                # Use the already-transformed transaction
-                matches = expr_parser.matches_transaction(pattern, transaction)
-
-                if not matches:
-                    continue
-            else:
-                # Legacy regex pattern matching
-                if not re.search(pattern, desc_upper, re.IGNORECASE):
-                    continue
-
-                # If pattern has modifiers, check them
-                if parsed and (parsed.amount_conditions or parsed.date_conditions):
-                    if not check_all_conditions(parsed, amount, txn_date):
-                        continue
-
-            result['matched_rule'] = {
-                'pattern': pattern,
-                'source': source,
-                'matched_on': 'transformed' if transformed_desc != description else 'original',
-                'tags': tags,
-            }
-            result['merchant'] = merchant
-            result['category'] = category
-            result['subcategory'] = subcategory
-            return result
-
-        except (re.error, expr_parser.ExpressionError):
-            continue
-
-    # No match - unknown merchant
+    # No categorization rule matched - unknown merchant
     result['is_unknown'] = True
-    result['merchant'] = extract_merchant_name(transformed_desc)
+    result['merchant'] = merchant
     result['category'] = 'Unknown'
     result['subcategory'] = 'Unknown'
     return result
